@@ -68,3 +68,12 @@ Lemma ob_limits_are_the_configured_ones : forall c,
   limit c PMPeek = spec_limit c 5%N /\ limit c PMTls = spec_limit c 6%N /\
   limit c PUp = None /\ limit c PTunnel = None /\ limit c PBody = None.
 Proof. intros c. repeat split; reflexivity. Qed.
+
+(* handleMITM replaces the read deadline (a whole-request deadline may be armed) by now + MITM handshake
+   timeout before it waits for the client hello and clears it before the handshake; the PROXY header is
+   awaited by the handler's first call, before any other timer is started (phase 4: hypotheses of
+   T15_handshake_limits_any_config) *)
+Lemma ob_mitm_replaces_read_deadline : mitm_peek_deadline = true.
+Proof. vm_compute. reflexivity. Qed.
+Lemma ob_pp_awaited_first : pp_early = true.
+Proof. vm_compute. reflexivity. Qed.
